@@ -111,7 +111,8 @@ def reset_world():
 
 class Sim:
     # pylint: disable=too-many-instance-attributes,too-many-public-methods
-    def __init__(self, spec, targets, bumped=(), auto_workers=0, rev='rev-0'):
+    def __init__(self, spec, targets, bumped=(), auto_workers=0, rev='rev-0',
+                 clock=None):
         import dawgie
         import dawgie.context
         import dawgie.pl.farm as farm
@@ -143,7 +144,7 @@ class Sim:
         self.db.target_list = list(targets)
         self.root = world.fresh_dir('sim')
         dawgie.context.data_dbs = self.root
-        self.clock = world.Clock(
+        self.clock = clock or world.Clock(
             datetime.datetime(2024, 3, 1, 12, 0, 0, tzinfo=datetime.UTC)
         )
         sched.datetime = world.fake_datetime_module(self.clock)
